@@ -28,9 +28,9 @@ Definition dispatch_lines (s : string) : list line := [(8, AIfState s); (12, ACa
 Definition gen_closed (t : table) : list line :=
   ([(4, ADef "__init__"); (8, AEntryStartup (getfirststate t)); (8, ASetState (getfirststate t));
     (4, ADef "process"); (8, ASkip)] ++
-   flat_map dispatch_lines (src_states t) ++
+   flat_map dispatch_lines (tps_states t) ++
    [(8, ASkip); (8, ANoTrans); (0, ASkip)] ++
-   flat_map (state_lines t) (src_states t) ++ [(4, ASkip)])%list.
+   flat_map (state_lines t) (tps_states t) ++ [(4, ASkip)])%list.
 
 Lemma flat_map_ext' : forall {A B} (f g : A -> list B) l, (forall x, f x = g x) -> flat_map f l = flat_map g l.
 Proof. intros. apply flat_map_ext. auto. Qed.
@@ -47,7 +47,7 @@ Qed.
 Ltac expand_tmpl := cbv [pair_expand is_begin is_end snd fst Nat.eqb orb andb negb inst2 inst1 inst0]; cbn [app].
 
 Lemma expand_states_dispatch : forall t,
-  expand_states t [(8, KIfState); (12, KCallState); (12, KReturn)] = flat_map dispatch_lines (src_states t).
+  expand_states t [(8, KIfState); (12, KCallState); (12, KReturn)] = flat_map dispatch_lines (tps_states t).
 Proof.
   intro t. unfold expand_states. apply flat_map_ext'. intro s. expand_tmpl. reflexivity.
 Qed.
@@ -66,7 +66,7 @@ Lemma expand_states_defs : forall t,
   expand_states t [(4, KDefProcessState); (8, KBegin 2); (8, KIfEvent); (12, KBegin 3); (12, KIfGuard true);
                    (16, KExit); (16, KAction); (16, KEntry); (16, KSetState); (16, KReturn); (12, KEnd 3);
                    (8, KEnd 2); (8, KSkip); (8, KNoTrans); (0, KSkip)]
-  = flat_map (state_lines t) (src_states t).
+  = flat_map (state_lines t) (tps_states t).
 Proof.
   intro t. unfold expand_states. apply flat_map_ext'. intro s. expand_tmpl.
   rewrite expand_events_closed. reflexivity.
@@ -84,7 +84,7 @@ Definition state_code (t : table) (s : string) : list line :=
 
 Definition code_closed (t : table) : list line :=
   ([(4, ADef "__init__"); (8, AEntryStartup (getfirststate t)); (8, ASetState (getfirststate t)); (4, ADef "process")] ++
-   flat_map dispatch_lines (src_states t) ++ [(8, ANoTrans)] ++ flat_map (state_code t) (src_states t))%list.
+   flat_map dispatch_lines (tps_states t) ++ [(8, ANoTrans)] ++ flat_map (state_code t) (tps_states t))%list.
 
 Lemma code_lines_app : forall a b, code_lines (a ++ b) = (code_lines a ++ code_lines b)%list.
 Proof. intros. unfold code_lines. apply filter_app. Qed.
@@ -126,9 +126,9 @@ Definition state_body (t : table) (s : string) : list stmt :=
 Definition dispatch_block (s : string) : stmt := Block (AIfState s) [Atom (ACallState s); Atom AReturn].
 Definition state_def (t : table) (s : string) : stmt := Block (ADef ("process" ++ s)) (state_body t s).
 Definition init_body (t : table) : list stmt := [Atom (AEntryStartup (getfirststate t)); Atom (ASetState (getfirststate t))].
-Definition process_body (t : table) : list stmt := (map dispatch_block (src_states t) ++ [Atom ANoTrans])%list.
+Definition process_body (t : table) : list stmt := (map dispatch_block (tps_states t) ++ [Atom ANoTrans])%list.
 Definition prog_of (t : table) : list stmt :=
-  Block (ADef "__init__") (init_body t) :: Block (ADef "process") (process_body t) :: map (state_def t) (src_states t).
+  Block (ADef "__init__") (init_body t) :: Block (ADef "process") (process_body t) :: map (state_def t) (tps_states t).
 
 (* ------------------------------------------------------------------ a relational reading of parse_block *)
 Inductive Parses : nat -> list line -> list stmt -> list line -> Prop :=
@@ -287,19 +287,19 @@ Qed.
 Lemma Parses_code_closed : forall t, Parses 4 (code_closed t) (prog_of t) [].
 Proof.
   intro t. unfold code_closed, prog_of. cbn [app].
-  assert (Parses 4 (flat_map (state_code t) (src_states t) ++ []) (map (state_def t) (src_states t) ++ []) []) as Hs.
+  assert (Parses 4 (flat_map (state_code t) (tps_states t) ++ []) (map (state_def t) (tps_states t) ++ []) []) as Hs.
   { apply Parses_states. constructor. }
   rewrite !app_nil_r in Hs.
-  eapply P_block with (r' := ((4, ADef "process") :: flat_map dispatch_lines (src_states t) ++ (8, ANoTrans) :: flat_map (state_code t) (src_states t))%list);
+  eapply P_block with (r' := ((4, ADef "process") :: flat_map dispatch_lines (tps_states t) ++ (8, ANoTrans) :: flat_map (state_code t) (tps_states t))%list);
     [reflexivity|lia| |].
   - apply P_atom; [reflexivity|]. apply P_atom; [reflexivity|]. apply P_dedent. lia.
-  - assert (Parses 8 (flat_map dispatch_lines (src_states t) ++ (8, ANoTrans) :: flat_map (state_code t) (src_states t))
-                     (map dispatch_block (src_states t) ++ [Atom ANoTrans]) (flat_map (state_code t) (src_states t))) as Hd.
+  - assert (Parses 8 (flat_map dispatch_lines (tps_states t) ++ (8, ANoTrans) :: flat_map (state_code t) (tps_states t))
+                     (map dispatch_block (tps_states t) ++ [Atom ANoTrans]) (flat_map (state_code t) (tps_states t))) as Hd.
     { apply Parses_dispatch. apply P_atom; [reflexivity|]. eapply Parses_stop; [exact Hs|lia]. }
-    destruct ((flat_map dispatch_lines (src_states t) ++ (8, ANoTrans) :: flat_map (state_code t) (src_states t))%list) as [|[j b] r] eqn:E.
-    { destruct (flat_map dispatch_lines (src_states t)); discriminate. }
+    destruct ((flat_map dispatch_lines (tps_states t) ++ (8, ANoTrans) :: flat_map (state_code t) (tps_states t))%list) as [|[j b] r] eqn:E.
+    { destruct (flat_map dispatch_lines (tps_states t)); discriminate. }
     assert (j = 8) as ->.
-    { destruct (src_states t); cbn [flat_map dispatch_lines app] in E; injection E as E1 _; congruence. }
+    { destruct (tps_states t); cbn [flat_map dispatch_lines app] in E; injection E as E1 _; congruence. }
     eapply P_block; [reflexivity|lia|exact Hd|exact Hs].
 Qed.
 
@@ -309,7 +309,7 @@ Proof.
   pose proof (Parses_code_closed t) as H.
   unfold code_closed at 1. cbn [app].
   change ((4, ADef "__init__") :: (8, AEntryStartup (getfirststate t)) :: (8, ASetState (getfirststate t)) :: (4, ADef "process")
-          :: (flat_map dispatch_lines (src_states t) ++ (8, ANoTrans) :: flat_map (state_code t) (src_states t))%list)
+          :: (flat_map dispatch_lines (tps_states t) ++ (8, ANoTrans) :: flat_map (state_code t) (tps_states t))%list)
     with (code_closed t).
   rewrite (parse_complete _ _ _ _ H) by lia. reflexivity.
 Qed.
